@@ -653,3 +653,67 @@ func SortedKeys(m map[string]string) []string {
 	sort.Strings(l)
 	return l
 }
+
+// ---------------------------------------------------------------------------------------------
+// engine.Loop as the driver
+
+// LoopWhole serves a whole history through one call of engine.Loop on a long-lived engine (first input as the
+// initial one, the rest as lines of the reader) and returns everything Loop wrote, and its error.
+func LoopWhole(a *App, cfg Config, hist []string) (out string, errs string, pan string) {
+	res := NewRecRes(a)
+	st := state.NewState(cfg.FlagCount)
+	ca := cache.NewCache()
+	if cfg.CacheSize > 0 {
+		ca = ca.WithCacheSize(cfg.CacheSize)
+	}
+	var buf bytes.Buffer
+	pv, _ := vk.Guard(func() {
+		en := engine.NewEngine(cfg.Engine(), res).WithState(st).WithMemory(ca)
+		if cfg.First && a.Funcs["_first"] != nil {
+			en = en.WithFirst(res.FirstFunc())
+		}
+		var lines bytes.Buffer
+		for _, in := range hist[1:] {
+			lines.WriteString(in + "\n")
+		}
+		if err := engine.Loop(context.Background(), en, &lines, &buf, []byte(hist[0])); err != nil {
+			errs = err.Error()
+		}
+	})
+	if pv != nil {
+		pan = fmt.Sprint(pv)
+	}
+	return buf.String(), errs, pan
+}
+
+// LoopRequest serves one request the way dev/interactive does with a persister: a new engine, engine.Loop with the
+// input as the initial one and nothing to read; Loop finishes the engine itself.
+func LoopRequest(a *App, cfg Config, b *Backend, res *RecRes, input string) (out string, errs string, pan string) {
+	store, err := b.Handle()
+	if err != nil {
+		return "", "harness: " + err.Error(), ""
+	}
+	var buf bytes.Buffer
+	pv, _ := vk.Guard(func() {
+		if cfg.StoreSession {
+			store.SetSession(cfg.SessionId)
+		}
+		if cfg.FuncUsesStore {
+			res.Store = store
+		}
+		en := engine.NewEngine(cfg.Engine(), res).WithPersister(persist.NewPersister(store))
+		if cfg.First && a.Funcs["_first"] != nil {
+			en = en.WithFirst(res.FirstFunc())
+		}
+		if err := engine.Loop(context.Background(), en, bytes.NewReader(nil), &buf, []byte(input)); err != nil {
+			errs = err.Error()
+		}
+	})
+	if pv != nil {
+		pan = fmt.Sprint(pv)
+	}
+	if b.Kind != "mem" {
+		vk.Guard(func() { store.Close(context.Background()) })
+	}
+	return buf.String(), errs, pan
+}
